@@ -2034,8 +2034,20 @@ macro_rules! impl_send_and_sync_for_iterator {
     ($($t:ty),*) => {
         $(
             // The compiler does not automatically derive Send and Sync for Iter because it contains
-            // raw pointers.
-            unsafe impl<'a, K: Send, V: Send> Send for $t {}
+            // raw pointers. These iterators hand out `&K` and `&V`, so like `&T` they can only
+            // be sent to another thread when the keys and values are `Sync`.
+            unsafe impl<'a, K: Sync, V: Sync> Send for $t {}
+            unsafe impl<'a, K: Sync, V: Sync> Sync for $t {}
+        )*
+    }
+}
+
+macro_rules! impl_send_and_sync_for_mut_iterator {
+    ($($t:ty),*) => {
+        $(
+            // These iterators hand out `&K` and `&mut V`: sending them needs `K: Sync`
+            // (like `&K`) and `V: Send` (like `&mut V`).
+            unsafe impl<'a, K: Sync, V: Send> Send for $t {}
             unsafe impl<'a, K: Sync, V: Sync> Sync for $t {}
         )*
     }
@@ -2084,13 +2096,16 @@ impl_exact_size_and_fused_iterator! {
 impl_send_and_sync_for_iterator! {
     MRUIter<'a, K, V>,
     LRUIter<'a, K, V>,
-    MRUIterMut<'a, K, V>,
-    LRUIterMut<'a, K, V>,
     KeysMRUIter<'a, K, V>,
     KeysLRUIter<'a, K, V>,
     ValuesMRUIter<'a, K, V>,
+    ValuesLRUIter<'a, K, V>
+}
+
+impl_send_and_sync_for_mut_iterator! {
+    MRUIterMut<'a, K, V>,
+    LRUIterMut<'a, K, V>,
     ValuesMRUIterMut<'a, K, V>,
-    ValuesLRUIter<'a, K, V>,
     ValuesLRUIterMut<'a, K, V>
 }
 
